@@ -95,6 +95,12 @@ def nan_status(st, n):
     for (t, truth, _) in st.facts:
         if t[0] == "fcmp" and t[1] == "uno":
             return truth
+        # self-comparisons: x != x holds exactly for NaN, x == x exactly for non-NaN
+        if t[0] == "fcmp" and len(t) == 4 and t[2] == t[3] == V:
+            if t[1] in ("une", "one") and t[1] == "une":
+                return truth
+            if t[1] in ("oeq", "ord"):
+                return not truth
     if n not in FLOAT_MASKS:
         return None
     EXP, MANT, ABS = FLOAT_MASKS[n]
